@@ -64,6 +64,12 @@ def gen_quantity(rng, dim=None):
         lim = {"Radian": 6.0, "Degree": 350.0, "MOA": 20000.0, "Mil": 6000.0, "MRad": 6000.0, "Thousandth": 5900.0,
                "InchesPer100Yd": 3000.0, "CmPer100m": 8000.0, "OClock": 11.5}[u]
         v = gen.pick(rng, [0.0, 0, 1.0, -1.0, rng.uniform(-lim, lim), rng.uniform(0, lim), 1e-12, 5e-324, -0.0])
+        import random as _random
+        r2 = _random.Random(repr(rng.getstate()[1][:6]) + "turn")       # side stream: the other draws of a seed stay as they were
+        if u in ("Radian", "Degree", "MOA", "Mil", "MRad", "Thousandth", "OClock") and r2.random() < 0.08:
+            # beyond one turn, either sign (whatever the constructor makes of it is the magnitude from then on: the
+            # reference is a twin built by the same call)
+            v = round(gen.pick(r2, [1.1, 2.3, -1.2, -2.6, 5.0]) * lim * 1.05, 3)
     else:
         v = gen.pick(rng, [0.0, 0, 1, -1.0, 3.0, 36.0, rng.uniform(-1000, 1000), rng.uniform(0, 5000), 1e12, -1e12, 1e-12,
                            5e-324, 2.5e-310, rng.uniform(-1, 1), 100, 459.67, -459.67, 273.15,
